@@ -95,6 +95,8 @@ def family(rng, idx):
         u <= u
         sorted([u, u])
         {u: 1}
+        pickle.dumps(u)
+        u.__getstate__()
         return u
 
     def chain(perturb, restore):
@@ -113,6 +115,15 @@ def family(rng, idx):
     def mk(q2=q, f2=f, path2=path, port2=port):
         return f"{pre}{user + '@' if user else ''}{host}{port2}{path2}{q2}{f2}"
 
+    # SIBLINGS derived from one and the same object: they share its scheme / authority / path string objects and differ in one tail component
+    sib = URL(base)
+    for fr in ("sa", "sb", "", "sa%20"):
+        members.append((("sibling-fragment", fr), lambda fr=fr: sib.with_fragment(fr or None)))
+    for qq in ("s=1", "s=2", ""):
+        members.append((("sibling-query", qq), lambda qq=qq: sib.with_query(qq or None)))
+        members.append((("sibling-query-fragment", qq), lambda qq=qq: sib.with_query(qq or None).with_fragment("sa")))
+    members.append((("sibling-self", ""), lambda: sib))
+    members.append((("sibling-self-used", ""), lambda: used(sib)))
     members.append((("with_query-from-other", base), lambda: used(URL(mk(q2="?zz=9"))).with_query(q[1:]) if q else used(URL(mk(q2="?zz=9"))).with_query(None)))
     members.append((("update_query-from-other", base), lambda: used(URL(mk(q2=""))).update_query(q[1:]) if q and "&" not in q else URL(base)))
     members.append((("extend_query-from-other", base), lambda: used(URL(mk(q2=""))).extend_query(q[1:]) if q and not q.endswith("&") else URL(base)))
@@ -150,6 +161,24 @@ def falsy_family():
     members.append((("with_fragment(None)", "tel:#f"), lambda: URL("tel:#f").with_fragment(None)))
     members.append((("with_path('')", "mailto:a"), lambda: URL("mailto:a").with_path("")))
     return "<falsy>", members
+
+
+def use_all(u):
+    import copy
+
+    try:
+        hash(u)
+        u < u
+        sorted([u, u])
+        {u: 1}
+        pickle.dumps(u, protocol=2)
+        copy.copy(u)
+        copy.deepcopy(u)
+        u.__getstate__()
+        str(u)
+        u.raw_path, u.host, u.port, u.query_string
+    except Exception:  # noqa: BLE001
+        pass
 
 
 def _rebuild(u):
@@ -216,6 +245,16 @@ def run(ctx):
                     ctx.fail("eq_asymmetric", {"a": objs[i][0], "b": objs[j][0]}, f"{eq[i][j]!r} vs {eq[j][i]!r}")
                 if lt[i][j] is True and lt[j][i] is True:
                     ctx.fail("lt_symmetric", {"a": objs[i][0], "b": objs[j][0]}, "a<b and b<a")
+        # the relations are facts about the VALUES: after every member has been hashed, ordered, pickled and copied they are the same
+        for _, u in objs:
+            use_all(u)
+        for i in range(n):
+            for j in range(n):
+                a, b = objs[i][1], objs[j][1]
+                e2, l2, h2 = guarded(lambda: a == b), guarded(lambda: a < b), guarded(lambda: hash(a) == hash(b))
+                if (e2, l2) != (eq[i][j], lt[i][j]) or (e2 is True and h2 is not True):
+                    ctx.fail("relation_changed_after_use", {"a": objs[i][0], "b": objs[j][0]}, f"before use: == {eq[i][j]!r} < {lt[i][j]!r}; after every member was hashed/ordered/pickled/copied: == {e2!r} < {l2!r} hash-equal {h2!r}")
+        ctx.count("families_rechecked_after_use")
         tri = 0
         for i in range(n):
             for j in range(n):
